@@ -69,8 +69,8 @@ class Gen:
         rng = self.rng
         if style is None:
             style = rng.choices(
-                ['int', 'str', 'mixed', 'tup', 'ord', 'ord2', 'unord1', 'unord', 'all'],
-                weights=[22, 26, 14, 6, 6, 4, 5, 7, 10])[0]
+                ['int', 'str', 'mixed', 'tup', 'ord', 'ord2', 'unord1', 'unord', 'all', 'tied'],
+                weights=[22, 26, 14, 6, 6, 4, 5, 7, 10, 7])[0]
         keys = []
         used = set()
 
@@ -104,6 +104,10 @@ class Gen:
                 add(rng.choice([rand_int, rand_str, rand_tup])())
             elif style == 'ord':
                 add(self.key_obj(KEY_TAGS_ORDERABLE[0], True))
+            elif style == 'tied':
+                # orderable objects of one class with only two ranks: many keys are neither < nor > one another
+                # (a sort must keep tied keys in insertion order: stability, also under reverse / lazy iteration)
+                add(self.key_obj(KEY_TAGS_ORDERABLE[0], True, rank=rng.randrange(2)))
             elif style == 'ord2':
                 add(self.key_obj(rng.choice(KEY_TAGS_ORDERABLE), True))
             elif style == 'unord1':
